@@ -122,6 +122,26 @@ theorem C03_below_min (rnd : Rat → Rat) (o : Oracle) (k : Nat) (globalDry : Bo
   · rw [hj]; exact scaleUp_noTaintAdd hnd o k cfg st g nowReal h.new _
   · omega
 
+/-- **C03 (restore).** The other half of the below-minimum clause: with a node count within `[min, max]`, fewer
+    untainted nodes than the minimum and no cool-down running, the scan *is* `ScaleUp(min − untainted)` on the tainted
+    nodes of this view — untainting first, newest first, and asking the cloud for the rest (`C07_order`,
+    `C07_remainder`, `C07_on_top`); in particular it does not return early. -/
+theorem C03_restore (rnd : Rat → Rat) (o : Oracle) (k : Nat) (globalDry : Bool) (cfg : GroupCfg) (st0 : GState)
+    (g : PGroup) (view : View) (h : Hints) (nowMock nowReal : Int)
+    (hne : ¬ (view.nodes.length = 0 ∧ view.pods.length = 0))
+    (hmin : ¬ ((view.nodes.length : Int) < (withCache st0 view.nodes).minEff))
+    (hmax : ¬ ((view.nodes.length : Int) > (withCache st0 view.nodes).maxEff))
+    (hlt : ((nodesOf (globalDry || cfg.dryMode) (withCache st0 view.nodes) .untainted view.nodes).length : Int) < (withCache st0 view.nodes).minEff)
+    (hfree : lockedNow (withCache st0 view.nodes).lock cfg.coolNs nowReal = false) :
+    (scanGroup rnd o k globalDry cfg st0 g view h nowMock nowReal).j =
+      (scaleUp o k (globalDry || cfg.dryMode) cfg
+        { withCache st0 view.nodes with lock := lockAfterCheck (withCache st0 view.nodes).lock cfg.coolNs nowReal } g nowReal h.new
+        (nodesOf (globalDry || cfg.dryMode) (withCache st0 view.nodes) .tainted view.nodes)
+        ((withCache st0 view.nodes).minEff - (nodesOf (globalDry || cfg.dryMode) (withCache st0 view.nodes) .untainted view.nodes).length)).j ∧
+    (scanGroup rnd o k globalDry cfg st0 g view h nowMock nowReal).val.branch = "min-scaleup" := by
+  unfold scanGroup
+  simp only [hne, hmin, hmax, hlt, hfree, if_false, if_true, Bool.false_eq_true, and_self]
+
 /-- **C03, histories**: several scans tainting in succession each re-count what they see. -/
 theorem C03_history (rnd : Rat → Rat) (ctl : Ctl) (s : Option CState) (es : List Event) :
     ∀ out ∈ runEvents rnd ctl s es, ∀ r ∈ out.recs, UniqueNames r.view →
